@@ -388,6 +388,32 @@ mod tests {
     }
 }
 
+/// The shortest round-trip digits of a positive finite double with the decimal point moved
+/// `k` places to the left or to the right (k = 1..=25 each way, padded with zeros) and the
+/// exponent adjusted to compensate: all of them spell exactly the same real number, hence the
+/// same double - also where the *written* exponent lies outside the range of doubles although
+/// the value does not (0.1e309 is 1e308; 10000e-327 is 1e-323), and the other way round.
+pub fn shifted_spellings(x: f64) -> Vec<String> {
+    if !(x.is_finite() && x > 0.0) {
+        return Vec::new();
+    }
+    let sci = format!("{x:e}");
+    let (mant, exp) = sci.split_once('e').unwrap();
+    let exp: i32 = exp.parse().unwrap();
+    let digits: String = mant.chars().filter(|c| c.is_ascii_digit()).collect();
+    let mut out = Vec::new();
+    for k in 1..=25i32 {
+        // point moved k places to the left: 0.00d1d2... e(exp + k)
+        out.push(format!("0.{}{}e{}", "0".repeat(k as usize - 1), digits, exp + k));
+        // point moved k places to the right
+        let k_us = k as usize;
+        let moved = if digits.len() > k_us + 1 { format!("{}.{}", &digits[..k_us + 1], &digits[k_us + 1..]) } else { format!("{}{}", digits, "0".repeat(k_us + 1 - digits.len())) };
+        out.push(format!("{moved}e{}", exp - k));
+    }
+    out.push(format!("-0.{digits}E+{}", exp + 1).replace("E+-", "E-"));
+    out
+}
+
 /// "Sticky digit" spellings of a positive finite double x: the exact midpoint between x and its
 /// upper neighbour, written positionally, followed by zeros up to well beyond the 1 100th
 /// fraction digit (no double and no midpoint has more than 1 075) and a final `1`; and the same
